@@ -71,14 +71,24 @@ Chosen(a) ==
   LET m == {j \in 1..NRoutes : Sel(cfg.routes[j].sel, a)}
       c == {j \in m : ~\E k \in m : k < j /\ ~cfg.routes[k].cont}
   IN IF c = {} THEN {0} ELSE c
-GK(j, g) == Rt(j).rk \o ":{g=\"" \o g \o "\"}"
-GKeys(a) == {GK(j, Lbl[a].g) : j \in Chosen(a)}
-AllGK == {GK(j, g) : j \in 0..NRoutes, g \in {"1", "2"}}
-RouteOfGk(gk) == CHOOSE j \in 0..NRoutes : \E g \in {"1", "2"} : GK(j, g) = gk
+\* group labels of an alert under a route's group_by: [g], [] (one group) or ['...'] (all labels),
+\* printed as model.LabelSet prints them (the group key is "<route key>:<group labels>")
+AllLbl == [ A1 |-> "{a=\"x\", alertname=\"X\", g=\"1\", sev=\"warn\"}",
+            A2 |-> "{a=\"y\", alertname=\"X\", g=\"1\", sev=\"warn\"}",
+            A3 |-> "{a=\"x\", alertname=\"Y\", g=\"2\", sev=\"warn\"}",
+            A4 |-> "{alertname=\"S\", g=\"1\", sev=\"crit\"}" ]
+GL(gby, a) == CASE gby = "g"    -> "{g=\"" \o Lbl[a].g \o "\"}"
+                [] gby = "none" -> "{}"
+                [] gby = "all"  -> AllLbl[a]
+GK(j, a) == Rt(j).rk \o ":" \o GL(Rt(j).gby, a)
+GKeys(a) == {GK(j, a) : j \in Chosen(a)}
+AllGK == {GK(j, a) : j \in 0..NRoutes, a \in Alerts}
+RouteOfGk(gk) == CHOOSE j \in 0..NRoutes : \E a \in Alerts : GK(j, a) = gk
 Opt(gk) == Rt(RouteOfGk(gk))
+LblOfGk(gk) == CHOOSE l \in {GL(Opt(gk).gby, a) : a \in Alerts} : gk = Opt(gk).rk \o ":" \o l
 Members(gk) == {a \in Alerts : gk \in GKeys(a)}
 \* the group key of an alert in a configuration without child routes
-GroupKeyOf(a) == GK(0, Lbl[a].g)
+GroupKeyOf(a) == GK(0, a)
 
 \* integrations [recv, name, sr] are identified, within their receiver, by name ("webhook/0",
 \* "email/0": kind and index within the kind), which is stable across reloads that add or
@@ -145,7 +155,7 @@ NamesOf(as)    == {as[i].l : i \in 1..Len(as)}
 Entry(as, a)   == as[CHOOSE i \in 1..Len(as) : as[i].l = a]
 
 -----------------------------------------------------------------------------
-RootOnly(gw, gi, ri) == [rk |-> "{}", sel |-> "ALL", cont |-> FALSE, recv |-> "r1", gw |-> gw, gi |-> gi, ri |-> ri, mute |-> << >>, active |-> << >>]
+RootOnly(gw, gi, ri) == [rk |-> "{}", sel |-> "ALL", cont |-> FALSE, recv |-> "r1", gby |-> "g", gw |-> gw, gi |-> gi, ri |-> ri, mute |-> << >>, active |-> << >>]
 \* the delivery targets of the alerts: <<alert, group key, integration of the group's receiver>>
 EligDom == UNION {UNION {{<<a, gk, i>> : i \in IntegsOf(gk)} : gk \in GKeys(a)} : a \in Alerts}
 ObsInit == /\ now = 0 /\ cfg = [root |-> RootOnly(0, 1, 1), routes |-> << >>, integs |-> <<[recv |-> "r1", name |-> "webhook/0", sr |-> TRUE]>>, inhibit |-> FALSE, windows |-> << >>, wait |-> 0, maxwait |-> 0]
@@ -484,23 +494,24 @@ ApiAlerts(list) ==
 \* GET /api/v2/alerts/groups at a quiescent instant: exactly the partition of the current
 \* alerts by group_by value (C06)
 ApiGroups(list) ==
-  LET \* the group keys an API entry [recv, g] can stand for (the API does not tell the route)
-      Cand(e) == {gk \in AllGK : Opt(gk).recv = e.recv /\ gk = GK(RouteOfGk(gk), e.g)}
+  LET \* the group keys an API entry [recv, lbl] can stand for (the API does not tell the route)
+      Cand(e) == {gk \in AllGK : Opt(gk).recv = e.recv /\ gk = Opt(gk).rk \o ":" \o e.lbl}
+      HasFiring(gk) == \E a \in DOMAIN ver : FiringAt(a, now) /\ gk \in GKeys(a)
       bad ==
         (IF \E j \in 1..Len(list) : \E a \in SeqToSet(list[j].alerts) :
-              a \in Alerts /\ (Lbl[a].g # list[j].g \/ ~\E gk \in GKeys(a) : Opt(gk).recv = list[j].recv)
+              a \in Alerts /\ GKeys(a) \cap Cand(list[j]) = {}
            THEN {"C06_api_group_holds_foreign_alert"} ELSE {})
         \cup (IF \E j \in 1..Len(list) :
-                   Cardinality({i \in 1..Len(list) : list[i].g = list[j].g /\ list[i].recv = list[j].recv}) > Cardinality(Cand(list[j]))
+                   Cardinality({i \in 1..Len(list) : list[i].lbl = list[j].lbl /\ list[i].recv = list[j].recv}) > Cardinality(Cand(list[j]))
                 THEN {"C06_api_shows_two_groups_for_one_key"} ELSE {})
         \cup (IF \E a \in DOMAIN ver : FiringAt(a, now) /\ \E gk \in GKeys(a) :
-                   ~\E j \in 1..Len(list) : list[j].recv = Opt(gk).recv /\ list[j].g = Lbl[a].g /\ a \in SeqToSet(list[j].alerts)
+                   ~\E j \in 1..Len(list) : gk \in Cand(list[j]) /\ a \in SeqToSet(list[j].alerts)
            THEN {"C06_api_groups_miss_firing_alert"} ELSE {})
-        \* one entry per route that holds a firing alert with this receiver and group_by value
-        \cup (IF \E gk \in AllGK : (\E a \in DOMAIN ver : FiringAt(a, now) /\ gk \in GKeys(a)) /\
-                   LET e == [recv |-> Opt(gk).recv, g |-> CHOOSE g \in {"1", "2"} : gk = GK(RouteOfGk(gk), g)]
-                   IN Cardinality({i \in 1..Len(list) : list[i].g = e.g /\ list[i].recv = e.recv})
-                        < Cardinality({x \in Cand(e) : \E a \in DOMAIN ver : FiringAt(a, now) /\ x \in GKeys(a)})
+        \* one entry per route that holds a firing alert with this receiver and these group labels
+        \cup (IF \E gk \in AllGK : HasFiring(gk) /\
+                   LET e == [recv |-> Opt(gk).recv, lbl |-> LblOfGk(gk)]
+                   IN Cardinality({i \in 1..Len(list) : list[i].lbl = e.lbl /\ list[i].recv = e.recv})
+                        < Cardinality({x \in Cand(e) : HasFiring(x)})
                 THEN {"C06_api_groups_miss_group"} ELSE {})
         \* C15: the group is reported as muted, with the interval names, as of its last flush
         \cup (IF \E j \in 1..Len(list) : Cardinality(Cand(list[j])) = 1 /\
